@@ -4,12 +4,14 @@ ENTRIES = {
             "bounded exhaustive enumeration of query terms x domain contents on the real engine vs a brute-force first-order evaluator",
             "Every EQL condition tree with <=3 (thorough: 4) leaves over a 5-atom alphabet, with every and_/or_ labelling and "
             "not_ above any node, plus one feature atom per vocabulary item of the statement in every <=2-leaf context, "
-            "flatten and nested an/the sub-queries, is built through the public API and evaluated by the real engine "
+            "quantifiers over predicates and pairs of quantifiers (same and different quantified variables), flatten and nested "
+            "an/the sub-queries, and queries in which one expression object occurs at several positions, is built through "
+            "the public API and evaluated by the real engine "
             "over a family of domain contents (all valuations, a value-equal twin, every pair of sub-domains of a "
             "3-object universe incl. empty ones); the row SET is compared with an independent reference evaluator. "
             "Exhaustive inside the bounds, nothing sampled.",
             "Bounds as listed in evidence.bounds; objects by identity, scalars type-exact; recorded findings "
-            "(known_findings.json) exclude: bool constants as conditions, empty domains never bound by short-circuit "
+            "(known_findings.json) exclude: empty domains never bound by short-circuit "
             "evaluation, exists/not for_all witness de-duplication. CPython 3.12.",
             "DESIGN.md section 3 C01"),
     "C02": ("exploration",
@@ -34,7 +36,7 @@ ENTRIES = {
     "C18": ("exploration",
             "bounded exhaustive enumeration of nested values through real json.dumps/loads, type-exact comparison",
             "Every value of nesting <=3 / list width <=2 over a 33-leaf alphabet (extreme numbers, nan/inf/-0.0, unicode and "
-            "surrogate strings, UUIDs, a registry type, serializer classes of subclass depth 1-3, two classes sharing a "
+            "surrogate strings, UUIDs, a registry type and a registered subclass of it, serializer classes of subclass depth 1-3, two classes sharing a "
             "simple name in different modules), every object class wrapping every smaller value, is round-tripped through "
             "real JSON text and compared type-exactly; every serialised object dict is checked for its fully qualified tag.",
             "Tuples/sets outside the statement; classes at module top level; CPython json module.",
@@ -42,7 +44,7 @@ ENTRIES = {
     "C19": ("fault_enumeration",
             "exhaustive enumeration of a type-tag fault grammar against from_json, outcome classified by exception class",
             "Every JSON type under the tag key and ~4000 strings of the grammar dots.module.sep.attr.dots (importable, "
-            "missing, missing parent, import-failing modules; functions, modules, TypeVars, instances, plain classes, the "
+            "missing, missing parent, import-failing modules; functions, modules, TypeVars, instances, unhashable values, plain classes, the "
             "abstract serializer base, deserialisable controls), top level and nested in a list, must raise a "
             "JSONSerializationError subclass (the documented subclass for the four documented cases) and never return an "
             "object; the control group must return exactly the tagged class.",
@@ -51,7 +53,7 @@ ENTRIES = {
     "C13": ("model_checking",
             "stateless exploration of all create/drop/sweep/query/clear histories on the real registry, weak-reference census oracle",
             "Every operation sequence to depth 5 from the empty registry and depth 4 from three pre-populated registries "
-            "(thorough: 6/5, 12-operation alphabet) over a diamond class hierarchy is replayed on the real SymbolGraph; every "
+            "(thorough: 6/5, 12-operation alphabet) over a diamond class hierarchy (two classes with falsy instances) is replayed on the real SymbolGraph; every "
             "query inside the history and a final query per type must return exactly the live instances (multiset of ids) "
             "according to the harness's own weak references. No de-duplication of states, because the future depends on "
             "rustworkx's free list.",
@@ -70,7 +72,8 @@ ENTRIES = {
             "exhaustive sequences of write operations on real managed fields vs plain list/set semantics + reference closure after every step",
             "All sequences of <=2 operations from a 36/19-operation alphabet (and <=3 from a 9/7-operation core; thorough: 3 "
             "from the full alphabet) on a list-valued and a set-valued managed field, from initial contents of size 0-2 "
-            "built by append or by assignment, run on the real descriptors; after every operation the field must equal "
+            "built by append, by assignment, by the constructor from a plain collection and by the constructor from another "
+            "instance's managed field, run on the real descriptors; after every operation the field must equal "
             "what Python does to a plain list/set (order and repetitions included) and the graph and all inverse/super "
             "fields must contain the closure of the current elements.",
             "Retraction (removal of consequences of elements that left the field) is outside the statement and not checked.",
@@ -89,13 +92,15 @@ ENTRIES = {
             "DESIGN.md section 3 C20"),
     "C03": ("model_checking",
             "stateless enumeration of ALL interleavings of iterator steps over real query objects that share nodes, isolated-run oracle",
-            "Nine scenarios of query objects sharing a query / a variable / a condition sub-expression / both variables / a "
-            "nested sub-query / the instance registry / a rule tree, over list and one-shot generator domains; for every "
+            "Sixteen scenarios of query objects sharing a query / a variable / a condition sub-expression / one attribute "
+            "expression in different roles and build orders / both variables / a nested sub-query / the instance registry / a "
+            "rule tree (refinement; alternative + next_rule), over list and one-shot generator domains; for every "
             "pair of per-iterator programs start.next^j.(drain|close|drop)[.start.drain] every interleaving of the two "
             "programs' steps is executed on freshly built real queries (thorough adds three iterators with <=2 preemptions); "
-            "every evaluation must yield exactly what it yields alone on a fresh identical query (a prefix if abandoned). "
+            "every evaluation must yield exactly what it yields alone on a fresh identical query (a prefix if abandoned), and "
+            "the alone-result must equal a plain-Python reference. "
             "A failing schedule is replayed on a second fresh build before it is believed.",
-            "Scenario family fixed (S1-S9, S10 thorough); 2-3 results per query; results compared as sequences of names. "
+            "Scenario family fixed (S1-S17, S10 thorough only); 2-5 results per query (five-result rule scenarios: <=3 preemptions); results compared as sequences of names. "
             "Open finding C03-F3: overlapping evaluations of one rule query.",
             "DESIGN.md section 3 C03"),
     "C08": ("exploration",
@@ -105,7 +110,8 @@ ENTRIES = {
             "user writes it; branch i tests its own boolean attribute and the domain holds one object per valuation of all "
             "conditions, so every combination of branch outcomes occurs for every tree; the inferred (tag, object) multiset "
             "must equal a direct transcription of the statement. A two-variable variant checks that conclusions are built "
-            "from the binding that triggered them.",
+            "from the binding that triggered them; every tree with <=4 (thorough 5) branches is also written with bare boolean "
+            "attributes and Predicates as conditions (five styles).",
             "Shapes the statement does not define are excluded (two refinements in one block, next_rule inside a refinement or "
             "alternative block, an alternative written after a next_rule in the same block).",
             "DESIGN.md section 3 C08"),
@@ -146,7 +152,8 @@ ENTRIES = {
     "C17": ("exploration",
             "exhaustive enumeration of generated dataclass models x hand-over orders x read-only operation sequences vs an independent get_type_hints analysis",
             "36k generated models (<=3 classes, every inheritance forest, relation fields X / Optional[X] / List / Set / Sequence / Type "
-            "to every target incl. self, two fields to one target, string forward references and __future__ annotations, private "
+            "to every target incl. self, two fields to one target, quoted forward references inside Optional/List/... in modules "
+            "WITHOUT postponed annotations and modules with `from __future__ import annotations`, private "
             "fields, rotating scalar blocks) are imported and handed to ClassDiagram in different orders; nodes, inheritance "
             "edges, association edges and every WrappedField predicate are compared with an independent typing-based reading; "
             "windows that together cover every sequence of <=2 (thorough 3) read-only operations are applied with the snapshot "
